@@ -54,6 +54,11 @@ CLAIMED = {
   note="Trusted: as C05; tabled exceptions (not-yet-granted zero, keep-alive and follower re-arm, clamp) in internal/rules/c05.go.",
   technique="value-origin (affine formula) analysis on canonical SSA expressions + path-sensitive ordering/guard analysis + constant relations, custom checker",
   ref="DESIGN.md section 4 C05/C06"),
+ "C14": dict(
+  text="Static analysis by byte-layout extraction from SSA (constant-bound loops expanded): all 20 Encode/Decode pairs of package protocol are total over the 64 positions and mutually inverse on every field byte (600 field-byte obligations), LockCommand/LockResultCommand match the README offsets (124), the server's hand-inlined lock-frame decoders (every arm) and result encoder agree with the protocol package (188), every result code has a text rendering, and text COUNT/RCOUNT are the wire value +-1. The text parser's independence of chunking, Build/Parse round trips and key normalisation are not decided, hence 'other' (the codec part is exhaustive over positions, not over values - it needs no values because each byte is copied or shifted whole).",
+  note="Trusted: Go type checker, go/ssa, the layout extractor (interprets byte stores, shifts with widening check, constant-bound loops, zero fills, string regions; anything else is reported as uninterpreted, never skipped).",
+  technique="byte-layout extraction and writer/reader agreement over SSA (sibling-codec cross-check), custom checker",
+  ref="DESIGN.md section 4 C14"),
 }
 
 NA = {
